@@ -51,14 +51,19 @@ def make_scenario(prop, seed):
         # keeps most runs informative; the statement holds for either setting
         "override": rng.random() < 0.8,
     }
-    per_file = n_rows_guess // dp["n_files"]
+    # boundary values are taken relative to the ACTUAL row counts (building the tables is cheap)
+    sizes = [len(t["rows"]) for t in P.build_tables(dp)]
     kn = {}
     if rng.random() < 0.7:
-        kn["CHUNK_SIZE_ROWS_PREDICTION"] = datagen.knob_value(rng, per_file)
+        kn["CHUNK_SIZE_ROWS_PREDICTION"] = datagen.knob_value(rng, rng.choice(sizes), extra=(folds, folds + 1, 2 * folds))
     if rng.random() < 0.7:
-        kn["CHUNK_SIZE_READ_ALL_DATA"] = datagen.knob_value(rng, per_file)
+        kn["CHUNK_SIZE_READ_ALL_DATA"] = datagen.knob_value(rng, rng.choice(sizes))
     if rng.random() < 0.3:
-        kn["CHUNK_SIZE_ROWS_FOR_DROP_COLUMNS"] = datagen.knob_value(rng, per_file)
+        kn["CHUNK_SIZE_ROWS_FOR_DROP_COLUMNS"] = datagen.knob_value(rng, rng.choice(sizes))
+    if cfg["subset_max_train"] is not None and rng.random() < 0.4:
+        # cap exactly at / around the size of the training data of one fold
+        approx_train = int(sum(sizes) * (folds - 1) / folds)
+        cfg["subset_max_train"] = max(10, approx_train + rng.choice([-2, -1, 0, 1, 2, len(sizes)]))
     if rng.random() < 0.3:
         kn["CHUNK_SIZE_COLUMNS_FOR_DROP_COLUMNS"] = rng.randint(1, 25)
     fmt = rng.choice(["pin", "pin", "parquet"])
